@@ -160,6 +160,7 @@ class PoolFacts:
         # queues by role
         self.work_q = self.results_q = self.results_lock = self.replace_q = None
         wrun = P.method(self.worker, "run")
+        wrun = P.method_view(self.worker, "run") or wrun          # private helpers inlined (`_send_result`, `_process_chunk`)
         for c in calls_in(wrun.node):
             qc = queue_call(c)
             d = dotted(c.func.value) if isinstance(c.func, ast.Attribute) else None
